@@ -32,6 +32,9 @@ def gen_case(rng, store):
         checks.append({"desc": "uniq", "type": "IsUnique", "fields": ["f%d" % i for i in sorted(k)]})
     header = rng.choice([0, 0, 1, 2])
     model = RM.CidModel(kind, fields, checks, header, dec, ths, line_delimiter=rng.choice(["lf", "cr", "crlf", None]) if kind == "fixed" else None)
+    if kind == "delimited":
+        # the default dialect, another quote character, or an escape character different from the quote character
+        model.quote, model.escape = rng.choice([('"', '"'), ('"', '"'), ("'", '"'), ('"', "\\"), ("'", "\\")])
     nrows = rng.randint(0, 8)
     table = []
     widths = model.widths() if kind == "fixed" else None
